@@ -123,7 +123,7 @@ pub mod rpc {
         /// returns when the part is no longer pending (or with a transport / timeout error)
         fn waitsendpay(&self, request: WaitsendpayRequest, Tracked(n): Tracked<&mut Node>) -> (r: WaitRes)
             requires node_wf(*old(n)), request.groupid is Some,
-                request.timeout is None,   // #waits_without_a_deadline_of_its_own [C15,C02,C16,C05,C08,C03]
+                request.timeout is None,   // #waits_without_a_deadline_of_its_own [C15,C02,C16,C05,C08,C03,C09]
             ensures node_rely(*old(n), *final(n)), wait_fact((request.groupid->0, request.partid), r, *final(n));
     }
 }
